@@ -542,6 +542,31 @@ func histRandom(c *core.Ctx, sb *sandbox, res *core.ShardResult, wl *core.WLog) 
 func histAmbient(c *core.Ctx, sb *sandbox, res *core.ShardResult, wl *core.WLog) {
 	wl.Block(1)
 	n := 0
+	// the other files of the cache directory go missing, the cache holds words that are no digests
+	if c.Shard == 1%c.NShards {
+		for _, shape := range []hshape{histShapes[0], histShapes[2], histShapes[4]} {
+			var all []string
+			for _, t := range shape.Tasks {
+				all = append(all, t.Name)
+			}
+			h := hcase{Shape: shape, Via: "inproc", InPlace: true}
+			for _, f := range shape.Files {
+				h.Ops = append(h.Ops, hop{Kind: "write", File: f, Value: "v1"})
+			}
+			h.Ops = append(h.Ops, hop{Kind: "run", Tasks: all}, hop{Kind: "rmtag"}, hop{Kind: "run", Tasks: all}, hop{Kind: "run", Tasks: all[:1]},
+				hop{Kind: "tamper"}, hop{Kind: "run", Tasks: all, Force: true}, hop{Kind: "run", Tasks: all}, hop{Kind: "tamper"}, hop{Kind: "run", Tasks: all}, hop{Kind: "run", Tasks: all})
+			vs, stats := execHistory(c, sb, h, c.Prop)
+			res.Evaluations += int64(stats.Runs)
+			res.Count("histories_with_a_damaged_cache_directory", 1)
+			res.Count("skips_observed", int64(stats.Skips))
+			res.Count("executions_observed", int64(stats.Reruns))
+			for _, v := range vs {
+				v.Key = h.key()
+				v.Case = core.JSON(h)
+				res.Violate(v)
+			}
+		}
+	}
 	// a user-defined task named clean is an executed task like any other, also under --force
 	if c.Shard == 0 {
 		shape := hshape{Name: "user-defined-clean-task", Tasks: []htask{{Name: "A", Lits: []string{"a.txt"}, NCmd: 1, Outs: []string{"o.txt"}}, {Name: "clean", Lits: []string{"b.txt"}, Deps: []string{"A"}, NCmd: 1}}, Files: []string{"a.txt", "b.txt"}}
@@ -634,7 +659,8 @@ func histAlts(c *core.Ctx, sb *sandbox, res *core.ShardResult, wl *core.WLog) {
 		combos = append(combos, combo{base, d, "one-dependency-more"})
 	}
 	// the same dependencies listed in another order (on shapes whose tasks name several)
-	for _, base := range []hshape{histShapes[3], histShapes[8]} {
+	twoGlobs := hshape{Name: "two-different-globs", Tasks: []htask{{Name: "A", Globs: []string{"*.txt", "sub/*.txt"}, Lits: []string{"a.txt"}, NCmd: 1}, {Name: "B", Lits: []string{"b.txt"}, NCmd: 1}}, Files: []string{"a.txt", "b.txt", "sub/s.txt"}}
+	for _, base := range []hshape{histShapes[3], twoGlobs} {
 		o := hshape{Name: base.Name, Files: base.Files, Links: base.Links}
 		for _, t := range base.Tasks {
 			nt := t
@@ -666,7 +692,13 @@ func histAlts(c *core.Ctx, sb *sandbox, res *core.ShardResult, wl *core.WLog) {
 			{Kind: "write", File: "a.txt", Value: "v1"},
 		}
 		n := len(alphabet)
-		prefix := []hop{{Kind: "write", File: "a.txt", Value: "v1"}, {Kind: "write", File: "b.txt", Value: "v1"}, {Kind: "run", Tasks: all}}
+		prefix := []hop{{Kind: "write", File: "a.txt", Value: "v1"}, {Kind: "write", File: "b.txt", Value: "v1"}}
+		for _, f := range cb.shape.Files {
+			if f == "sub/s.txt" {
+				prefix = append(prefix, hop{Kind: "write", File: f, Value: "v1"})
+			}
+		}
+		prefix = append(prefix, hop{Kind: "run", Tasks: all})
 		for length := 2; length <= maxLen; length++ {
 			total := 1
 			for i := 0; i < length-1; i++ {
